@@ -41,13 +41,27 @@ PALETTES = [
 @st.composite
 def cases(draw, tier):
     pal = list(draw(st.sampled_from(PALETTES)))
-    cls = draw(st.sampled_from(["small", "dense", "sparse", "sparse", "empty"]))
+    cls = draw(st.sampled_from(["small", "dense", "sparse", "sparse", "empty", "small", "dense", "sparse", "sparse", "empty",
+                                "runs"]))
     ndim = draw(st.sampled_from([1, 1, 2]))
     if cls == "empty":
         shape = draw(st.sampled_from([[0], [0, 3], [4, 0], [0, 0]])) if ndim == 2 else [0]
         if len(shape) == 1 and ndim == 2:
             shape = [0, 2]
         values, fill, cells = [], None, None
+    elif cls == "runs":
+        # a SORTED / grouped file: a few long runs of one value each, up to 2^17 cells (block-wise counting or
+        # conversion sees a new largest value only in a later block)
+        total = draw(st.sampled_from([300, 4096, 65536, 70000, 80000, 131072]))
+        k = draw(st.integers(2, 6))
+        vals = draw(st.permutations(pal))[:k]
+        if draw(st.booleans()):
+            vals = sorted(vals)
+        cuts = sorted(draw(st.lists(st.integers(1, total - 1), min_size=k - 1, max_size=k - 1, unique=True)))
+        lens = [b - a for a, b in zip([0] + cuts, cuts + [total])]
+        shape = [total] if ndim == 1 else [total // 2, 2]
+        values, fill, cells = None, None, None
+        runs = [[v, n_] for v, n_ in zip(vals, lens)]
     elif cls == "sparse":
         n = draw(st.integers(80, 400 if tier == "thorough" else 240))
         c = draw(st.integers(1, 3)) if ndim == 2 else None
@@ -87,6 +101,8 @@ def cases(draw, tier):
                     values[r * c + col] = v
         fill, cells = None, None
     case = {"shape": shape, "values": values, "fill": fill, "cells": cells, "cls": cls}
+    if cls == "runs":
+        case["runs"] = runs
     present = sorted(set(flat_values(case)))
     outside = [v for v in pal + [9, -7, 300] if v not in present]
     ck = draw(st.sampled_from(["omitted", "present", "absent"]))
@@ -169,6 +185,12 @@ def as_given(a, in_dtype, layout):
 
 
 def flat_values(case):
+    if case.get("runs"):
+        size = 1
+        for s_ in case["shape"]:
+            size *= s_
+        out = [v for v, n_ in case["runs"] for _ in range(n_)]
+        return out[:size] + [case["runs"][-1][0]] * (size - len(out))
     if case["values"] is not None:
         return list(case["values"])
     size = 1
